@@ -27,7 +27,10 @@ import (
 
 type raceReq struct{ raw, remote string }
 
-const raceThreads = 8
+const (
+	raceThreads = 8
+	mfReps      = 2 // rounds through the request list per thread and phase (method family)
+)
 
 // raceOverlap serves every list of phases from raceThreads goroutines at once (each starts at its own offset and
 // goes round the list reps times); the phases run one after the other.
@@ -105,7 +108,9 @@ func TestRace(t *testing.T) {
 		t.Skip("race pass only")
 	}
 	// wall budget: ends the pass early, never fails it
-	deadline := time.Now().Add(75 * time.Second)
+	t0r := time.Now()
+	// every part has its own share of the budget, so that a loaded machine shortens each part instead of dropping the later ones
+	deadline := t0r.Add(24 * time.Second)
 	ip := interp{CollapseSlashes: true, HostDotStripped: true, HeaderCommaList: false, UnmapV4InV6: true} // phase sorting only
 	booted, served := 0, 0
 
@@ -114,10 +119,14 @@ func TestRace(t *testing.T) {
 	for stride := 0; stride < 7; stride++ {
 		for ci := stride; ci < len(cfgs); ci += 7 {
 			if time.Now().After(deadline) {
-				t.Logf("race pass: wall budget reached after %d configurations, %d requests", booted, served)
-				return
+				t.Logf("race pass: wall budget of the method family reached after %d configurations, %d requests", booted, served)
+				stride = 7
+				break
 			}
 			c := cfgs[ci]
+			if os.Getenv("VERIF_RACE_TRACE") != "" {
+				os.Stderr.WriteString("race pass: " + time.Since(t0r).String() + " " + c.String() + "\n")
+			}
 			a := raceBoot(t, mfDSL(c, bootSeq.Add(1)))
 			routes := mfRoutes(c)
 			var all []raceReq
@@ -127,9 +136,9 @@ func TestRace(t *testing.T) {
 				status = append(status, mfResolve(routes, q, ip).Status)
 			}
 			phases := racePhases(all, status)
-			raceOverlap(a, phases, 6)
+			raceOverlap(a, phases, mfReps)
 			for _, p := range phases {
-				served += 6 * raceThreads * len(p)
+				served += mfReps * raceThreads * len(p)
 			}
 			a.Shutdown()
 			booted++
@@ -138,6 +147,7 @@ func TestRace(t *testing.T) {
 
 	// (2) one configuration per match shape of the main family: the shape on /a/b, GET+PUT on the inbound{} route /a, a bare /
 	ref := newMemo(ip)
+	deadline = time.Now().Add(8 * time.Second)
 	for m := 0; m < nMatch; m++ {
 		if time.Now().After(deadline) {
 			break
@@ -152,9 +162,9 @@ func TestRace(t *testing.T) {
 			status = append(status, st)
 		}
 		phases := racePhases(all, status)
-		raceOverlap(a, phases, 2)
+		raceOverlap(a, phases, 1)
 		for _, p := range phases {
-			served += 2 * raceThreads * len(p)
+			served += raceThreads * len(p)
 		}
 		a.Shutdown()
 		booted++
@@ -175,6 +185,7 @@ func TestRace(t *testing.T) {
 			}
 		}
 	}
+	deadline = time.Now().Add(8 * time.Second)
 	for _, l := range lists {
 		if time.Now().After(deadline) {
 			break
